@@ -48,11 +48,11 @@ struct Run {
 	static A mk(uint64_t b) { A p; p.setbits(b); return p; }
 
 	static void from_f32(uint32_t src) {
-		A a; a = uv::bits2float(src);
+		A a; a.setbits(0x5a5a5a5a5a5a5a5aull & uv::mask(nbits)); a = uv::bits2float(src);   // dirty target
 		std::printf("areal %u %u %s f32 %08x => %llx\n", nbits, es, BTN, src, (ull)enc(a));
 	}
 	static void from_f64(uint64_t src) {
-		A a; a = uv::bits2double(src);
+		A a; a.setbits(0xa5a5a5a5a5a5a5a5ull & uv::mask(nbits)); a = uv::bits2double(src);  // dirty target
 		std::printf("areal %u %u %s f64 %016llx => %llx\n", nbits, es, BTN, (ull)src, (ull)enc(a));
 	}
 	static void native(uint64_t b) {
@@ -60,12 +60,12 @@ struct Run {
 			A a = mk(b);
 			if constexpr (fbits <= 52) {
 				double d = a.template to_native<double>();
-				A back; back = d;
+				A back; back.setbits(0x5a5a5a5a5a5a5a5aull & uv::mask(nbits)); back = d;
 				std::printf("areal %u %u %s tod %llx => %016llx %llx\n", nbits, es, BTN, (ull)b, (ull)uv::double2bits(d), (ull)enc(back));
 			}
 			if constexpr (fbits <= 21) {
 				float f = a.template to_native<float>();
-				A back; back = f;
+				A back; back.setbits(0xa5a5a5a5a5a5a5a5ull & uv::mask(nbits)); back = f;
 				std::printf("areal %u %u %s tof %llx => %08x %llx\n", nbits, es, BTN, (ull)b, uv::float2bits(f), (ull)enc(back));
 			}
 		}
